@@ -701,3 +701,72 @@ def normalised_models(models):
                 del meta[k]
         m['meta'] = meta
     return out
+
+
+# ---------------------------------------------------------------------------
+# Django migration files rendered from specs (C10)
+# ---------------------------------------------------------------------------
+
+def render_migration_field(field):
+    kind = field['kind']
+    cls = 'models.' + KINDS[kind]
+    args = []
+    if kind in REL_KINDS:
+        args.append('to=%s' % pyval(field['to']))
+    if kind in FK_KINDS:
+        args.append('on_delete=models.CASCADE')
+    for k, v in field_kwargs(field):
+        args.append('%s=%s' % (k, v))
+    if kind in REL_KINDS:
+        args.append("related_name='+'")
+    return '%s(%s)' % (cls, ', '.join(args))
+
+
+def render_migration(dependencies, operations, initial=False):
+    lines = ['from django.db import migrations, models', '', '',
+             'class Migration(migrations.Migration):', '']
+    if initial:
+        lines.append('    initial = True')
+        lines.append('')
+    lines.append('    dependencies = [%s]' % ', '.join(
+        pyval({'__tuple__': d}) for d in dependencies))
+    lines.append('')
+    lines.append('    operations = [')
+    for op in operations:
+        if op['op'] == 'CreateModel':
+            m = op['model']
+            lines.append('        migrations.CreateModel(')
+            lines.append('            name=%s,' % pyval(m['name']))
+            lines.append('            fields=[')
+            lines.append("                ('id', models.AutoField("
+                         "auto_created=True, primary_key=True, "
+                         "serialize=False, verbose_name='ID')),")
+            for f in m['fields']:
+                lines.append('                (%s, %s),' % (
+                    pyval(f['name']), render_migration_field(f)))
+            lines.append('            ],')
+            opts = {}
+            if (m.get('meta') or {}).get('db_table'):
+                opts['db_table'] = m['meta']['db_table']
+            if opts:
+                lines.append('            options=%s,' % pyval(opts))
+            lines.append('        ),')
+        elif op['op'] == 'AddField':
+            f = op['field']
+            default = ''
+            if not f['attrs'].get('null') and f['kind'] != 'ManyToMany':
+                default = ', preserve_default=False'
+                ff = copy.deepcopy(f)
+                text = render_migration_field(ff)[:-1]
+                text += (', ' if not text.endswith('(') else '') + \
+                    'default=%s)' % pyval(op.get('default', 0))
+            else:
+                text = render_migration_field(f)
+            lines.append('        migrations.AddField(model_name=%s, '
+                         'name=%s, field=%s%s),' % (
+                             pyval(op['model'].lower()), pyval(f['name']),
+                             text, default))
+        else:
+            raise ValueError(op['op'])
+    lines.append('    ]')
+    return '\n'.join(lines) + '\n'
